@@ -122,6 +122,7 @@ func scripted(w http.ResponseWriter, r *http.Request) {
 			Status       int    `json:"status"`
 			Pre          bool   `json:"pre"`
 			SetCL        bool   `json:"setcl"`
+			Flush        bool   `json:"flush"`
 		}
 		json.Unmarshal([]byte(r.Header.Get("X-Verif-Case")), &c)
 		seed, _ := strconv.ParseInt(r.Header.Get("X-Verif-Seed"), 10, 64)
@@ -149,6 +150,11 @@ func scripted(w http.ResponseWriter, r *http.Request) {
 		// two writes, like a proxy copy loop
 		half := len(body) / 2
 		w.Write(body[:half])
+		if c.Flush {
+			if f, ok := w.(http.Flusher); ok {
+				f.Flush()
+			}
+		}
 		w.Write(body[half:])
 	}
 }
